@@ -60,7 +60,7 @@ def most_descriptive_compound(x_input, nobjects):
         x_input_ = mx.new_matrix(x_input)
         mdcxalloc = True
     else:
-        x_input_ = x_input
+        x_input_ = x_input.mtx
 
     obj_sel = vect.init_uivector()
     lsci.MDC(x_input_, nobjects, 0, obj_sel, os.cpu_count())
@@ -111,7 +111,7 @@ def max_dissimilarity_selection(x_input, nobjects):
         x_input_ = mx.new_matrix(x_input)
         mdisxalloc = True
     else:
-        x_input_ = x_input
+        x_input_ = x_input.mtx
 
     obj_sel = vect.init_uivector()
     lsci.MaxDis_Fast(x_input_, nobjects, 0, obj_sel, os.cpu_count())
@@ -163,7 +163,7 @@ def k_means_plus_plus(x_input, n_clusters):
         x_input_ = mx.new_matrix(x_input)
         kmppxalloc = True
     else:
-        x_input_ = x_input
+        x_input_ = x_input.mtx
 
     labels = vect.init_uivector()
     lsci.KMeans(x_input_,
